@@ -191,4 +191,541 @@ theorem EncodePackedUInt64_refines (fuel : Nat) (hf : 10 ≤ fuel) (p : Bytes) (
         store_panic p _ _ (by simp only [List.length_append]; omega)
       simp only [hst, EncOut.ofRes, s1bad h1]
 
+/-! ## `EncodePackedInt32` -/
+
+abbrev ESI32 := Encoder_EncodePackedInt32.St
+
+def sizesBodyI32 : ESI32 → Go.Out ESI32 Unit := (fun s => .next { s with sz := (s.sz + (SizeOfVarint (BitVec.signExtend 64 s.v))) })
+def bindVI32 : ESI32 → BitVec 32 → ESI32 := (fun s x => { s with v := x })
+
+theorem sizeOfVarint_le10I32 (x : BitVec 64) : (SizeOfVarint x).toNat = sizeOfVarint x.toNat ∧ sizeOfVarint x.toNat ≤ 10 := by
+  refine ⟨sizeOfVarint_src x, ?_⟩
+  rw [sizeOfVarint_eq_length]
+  exact encVarint_length_le_10 (by rw [two64_eq]; exact x.isLt)
+
+/-- the first loop: `sz` ends up as the sum of the elements' varint sizes -/
+theorem sizes_loopI32 : ∀ (vs : List (BitVec 32)) (s : ESI32), s.sz.toNat + 10 * vs.length < 2 ^ 63 →
+    ∃ s', Go.forEachGo bindVI32 sizesBodyI32 vs s = .next s' ∧ s'.e_p = s.e_p ∧ s'.e_offset = s.e_offset ∧ s'.vs = s.vs ∧ s'.tag = s.tag ∧
+      s'.sz.toNat = s.sz.toNat + sumSizes sizeOfVarint (vs.map (fun v => (BitVec.signExtend 64 v).toNat)) := by
+  intro vs
+  induction vs with
+  | nil => intro s _; exact ⟨s, rfl, rfl, rfl, rfl, rfl, by simp [sumSizes]⟩
+  | cons x r ih =>
+    intro s hb
+    obtain ⟨hx, hx10⟩ := sizeOfVarint_le10I32 (BitVec.signExtend 64 x)
+    simp only [List.length_cons] at hb
+    have hadd : (s.sz + SizeOfVarint (BitVec.signExtend 64 x)).toNat = s.sz.toNat + sizeOfVarint (BitVec.signExtend 64 x).toNat := by
+      rw [BitVec.toNat_add, hx, Nat.mod_eq_of_lt (by omega)]
+    obtain ⟨s', h1, h2, h3, h4, h5, h6⟩ := ih { s with v := x, sz := s.sz + SizeOfVarint (BitVec.signExtend 64 x) } (by simp only; rw [hadd]; omega)
+    refine ⟨s', ?_, h2, h3, h4, h5, ?_⟩
+    · simp only [Go.forEachGo, bindVI32, sizesBodyI32]; exact h1
+    · rw [h6]; simp only [hadd, List.map_cons, sumSizes, List.sum_cons]; omega
+
+def writeBodyI32 (fuel : Nat) : ESI32 → Go.Out ESI32 Unit :=
+  (fun s => if ((s.e_offset).toNat ≤ s.e_p.length) then match (EncodeVarint fuel (s.e_p.drop (s.e_offset).toNat) (BitVec.signExtend 64 s.v)) with | .ret r c => .next { s with e_p := s.e_p.take (s.e_offset).toNat ++ c.dest, e_offset := (s.e_offset + r) } | .next _ => .panic | .panic => .panic | .diverge => .diverge else .panic)
+
+def flatI32 (vs : List (BitVec 32)) : Bytes := ((vs.map (fun v => (BitVec.signExtend 64 v).toNat)).map encVarint).flatten
+
+/-- the second loop: the elements' varints one after the other at the cursor, or a panic when they do not all fit -/
+theorem write_loopI32 (fuel : Nat) (hf : 10 ≤ fuel) : ∀ (vs : List (BitVec 32)) (s : ESI32), s.e_p.length < 2 ^ 62 → s.e_offset.toNat ≤ s.e_p.length →
+    (s.e_offset.toNat + (flatI32 vs).length ≤ s.e_p.length →
+      ∃ s', Go.forEachGo bindVI32 (writeBodyI32 fuel) vs s = .next s' ∧ s'.e_p = writeAt s.e_p s.e_offset.toNat (flatI32 vs) ∧
+        s'.e_offset.toNat = s.e_offset.toNat + (flatI32 vs).length) ∧
+    (¬ s.e_offset.toNat + (flatI32 vs).length ≤ s.e_p.length → Go.forEachGo bindVI32 (writeBodyI32 fuel) vs s = .panic) := by
+  intro vs
+  induction vs with
+  | nil =>
+    intro s hp ho
+    refine ⟨fun _ => ⟨s, rfl, by simp [flatI32, writeAt], by simp [flatI32]⟩, fun h => by simp [flatI32] at h; omega⟩
+  | cons x r ih =>
+    intro s hp ho
+    have hflat : flatI32 (x :: r) = encVarint (BitVec.signExtend 64 x).toNat ++ flatI32 r := by simp [flatI32]
+    obtain ⟨sok, sbad⟩ := stage (EncodeVarint fuel (s.e_p.drop s.e_offset.toNat) (BitVec.signExtend 64 x)) (·.dest) s.e_p s.e_offset (encVarint (BitVec.signExtend 64 x).toNat) (by omega) ho
+      (fun h => EncodeVarint_ok fuel _ (BitVec.signExtend 64 x) hf h) (fun h => EncodeVarint_short fuel _ (BitVec.signExtend 64 x) hf h)
+    by_cases h1 : s.e_offset.toNat + (encVarint (BitVec.signExtend 64 x).toNat).length ≤ s.e_p.length
+    · obtain ⟨c, hc, hw, ha⟩ := sok h1
+      have hstep : writeBodyI32 fuel (bindVI32 s x) = .next { (bindVI32 s x) with e_p := writeAt s.e_p s.e_offset.toNat (encVarint (BitVec.signExtend 64 x).toNat), e_offset := s.e_offset + BitVec.ofNat 64 (encVarint (BitVec.signExtend 64 x).toNat).length } := by
+        simp only [writeBodyI32, bindVI32, ho, if_true, hc, hw]
+      have hlen1 : (writeAt s.e_p s.e_offset.toNat (encVarint (BitVec.signExtend 64 x).toNat)).length = s.e_p.length := writeAt_length h1
+      obtain ⟨iok, ibad⟩ := ih { (bindVI32 s x) with e_p := writeAt s.e_p s.e_offset.toNat (encVarint (BitVec.signExtend 64 x).toNat), e_offset := s.e_offset + BitVec.ofNat 64 (encVarint (BitVec.signExtend 64 x).toNat).length }
+        (by simp only; rw [hlen1]; exact hp) (by simp only; rw [hlen1, ha]; exact h1)
+      simp only [hlen1, ha] at iok ibad
+      constructor
+      · intro hfit
+        rw [hflat, List.length_append] at hfit
+        obtain ⟨s', e1, e2, e3⟩ := iok (by omega)
+        refine ⟨s', ?_, ?_, ?_⟩
+        · simp only [Go.forEachGo, hstep]; exact e1
+        · rw [e2, hflat, writeAt_writeAt _ _ _ _ (by omega)]
+        · rw [e3, hflat, List.length_append]; omega
+      · intro hno
+        rw [hflat, List.length_append] at hno
+        simp only [Go.forEachGo, hstep]
+        exact ibad (by omega)
+    · constructor
+      · intro hfit; rw [hflat, List.length_append] at hfit; omega
+      · intro _
+        have hp' := sbad h1
+        simp only [Go.forEachGo, writeBodyI32, bindVI32, ho, if_true, hp']
+
+theorem seq_nextI32 {σ ρ : Type} (a b : σ → Go.Out σ ρ) (s s' : σ) (h : a s = .next s') : Go.seq a b s = b s' := by
+  simp [Go.seq, h]
+theorem seq_panicI32 {σ ρ : Type} (a b : σ → Go.Out σ ρ) (s : σ) (h : a s = .panic) : Go.seq a b s = .panic := by
+  simp [Go.seq, h]
+
+/-- **`(*Encoder).EncodePackedUInt64` of the source refines `Enc.step (.packedVarint tag vs)`** -/
+theorem EncodePackedInt32_refines (fuel : Nat) (hf : 10 ≤ fuel) (p : Bytes) (off tag : BitVec 64) (vs : List (BitVec 32))
+    (hp : p.length < 2 ^ 62) (hoff : off.toNat ≤ p.length) (hvs : vs.length < 2 ^ 59) :
+    match ({ buf := p, off := off.toNat } : Enc).step (.packedVarint tag.toNat (vs.map (fun v => (BitVec.signExtend 64 v).toNat))) with
+    | .ok e' => ∃ s, Encoder_EncodePackedInt32 fuel p off tag vs = .ret () s ∧ s.e_p = e'.buf ∧ s.e_offset.toNat = e'.off
+    | .panic => Encoder_EncodePackedInt32 fuel p off tag vs = .panic
+    | .err _ => False := by
+  have hp63 : p.length < 2 ^ 63 := by omega
+  unfold Encoder_EncodePackedInt32 Encoder_EncodePackedInt32.body
+  cases hvs0 : vs with
+  | nil => simp [Go.seq, Enc.step]
+  | cons x0 r0 =>
+    rw [← hvs0]
+    have hne : (vs.map (fun v => (BitVec.signExtend 64 v).toNat)).isEmpty = false := by rw [hvs0]; rfl
+    have hlen0 : ((BitVec.ofNat 64 vs.length) == 0#64) = false := by
+      have : 0 < vs.length := by rw [hvs0]; simp
+      have h2 : (BitVec.ofNat 64 vs.length).toNat = vs.length := by simp; omega
+      have : BitVec.ofNat 64 vs.length ≠ 0#64 := fun h => by rw [h] at h2; simp at h2; omega
+      simp [this]
+    simp only [Enc.step, hne, Bool.false_eq_true, if_false, EncOp.wire]
+    -- abbreviations
+    generalize hT : encTag tag.toNat wtLen = T
+    generalize hS : sumSizes sizeOfVarint (vs.map (fun v => (BitVec.signExtend 64 v).toNat)) = S
+    have hW : ((vs.map (fun v => (BitVec.signExtend 64 v).toNat)).map encVarint).flatten = flatI32 vs := rfl
+    rw [hW]
+    have hwt : wtLen = (2#64).toNat := rfl
+    -- first statement (empty test) and the key
+    obtain ⟨s1ok, s1bad⟩ := stage (EncodeTag fuel (p.drop off.toNat) tag 2#64) (·.dest) p off T hp63 hoff
+      (fun h => by rw [← hT, hwt] at h ⊢; exact EncodeTag_ok fuel _ tag 2#64 hf h)
+      (fun h => by rw [← hT, hwt] at h; exact EncodeTag_short fuel _ tag 2#64 hf h)
+    simp only [Go.seq, Go.skip, hlen0, Bool.false_eq_true, if_false, hoff, if_true]
+    by_cases h1 : off.toNat + T.length ≤ p.length
+    · obtain ⟨c1, hc1, hw1, ha1⟩ := s1ok h1
+      have hlen1 : (writeAt p off.toNat T).length = p.length := writeAt_length h1
+      simp only [hc1, hw1]
+      -- the sizes loop
+      obtain ⟨s3, hl3, e3p, e3o, e3v, e3t, e3s⟩ := sizes_loopI32 vs
+        { e_p := writeAt p off.toNat T, e_offset := off + BitVec.ofNat 64 T.length, tag := tag, vs := vs, sz := 0#64 } (by simp; omega)
+      have hf3 : Go.forEach (fun s : ESI32 => s.vs) (fun s x => { s with v := x }) (fun s => Go.Out.next { s with sz := (s.sz + (SizeOfVarint (BitVec.signExtend 64 s.v))) })
+          { e_p := writeAt p off.toNat T, e_offset := off + BitVec.ofNat 64 T.length, tag := tag, vs := vs, sz := 0#64 } = .next s3 := hl3
+      simp only [hf3]
+      simp only at e3p e3o e3v e3t e3s
+      have hsz : s3.sz.toNat = S := by rw [e3s, hS]; simp
+      -- the length prefix
+      obtain ⟨s4ok, s4bad⟩ := stage (EncodeVarint fuel (s3.e_p.drop s3.e_offset.toNat) s3.sz) (·.dest) s3.e_p s3.e_offset (encVarint S)
+        (by rw [e3p, hlen1]; exact hp63) (by rw [e3p, e3o, hlen1, ha1]; exact h1)
+        (fun h => by rw [← hsz] at h ⊢; exact EncodeVarint_ok fuel _ s3.sz hf h) (fun h => by rw [← hsz] at h; exact EncodeVarint_short fuel _ s3.sz hf h)
+      have hle3 : s3.e_offset.toNat ≤ s3.e_p.length := by rw [e3p, e3o, hlen1, ha1]; exact h1
+      simp only [hle3, if_true]
+      by_cases h2 : off.toNat + T.length + (encVarint S).length ≤ p.length
+      · obtain ⟨c2, hc2, hw2, ha2⟩ := s4ok (by rw [e3p, e3o, hlen1, ha1]; exact h2)
+        simp only [hc2, hw2]
+        simp only [e3p, e3o, ha1] at hw2 ha2
+        have hq2 : writeAt (writeAt p off.toNat T) (off.toNat + T.length) (encVarint S) = writeAt p off.toNat (T ++ encVarint S) :=
+          writeAt_writeAt p off.toNat _ _ h2
+        have hlen2 : (writeAt p off.toNat (T ++ encVarint S)).length = p.length := writeAt_length (by simp only [List.length_append]; omega)
+        -- the elements
+        have e5p : ({ s3 with e_p := writeAt s3.e_p s3.e_offset.toNat (encVarint S), e_offset := s3.e_offset + BitVec.ofNat 64 (encVarint S).length } : ESI32).e_p = writeAt p off.toNat (T ++ encVarint S) := by
+          show writeAt s3.e_p s3.e_offset.toNat (encVarint S) = _
+          rw [e3p, e3o, ha1, hq2]
+        have e5o : ({ s3 with e_p := writeAt s3.e_p s3.e_offset.toNat (encVarint S), e_offset := s3.e_offset + BitVec.ofNat 64 (encVarint S).length } : ESI32).e_offset.toNat = off.toNat + T.length + (encVarint S).length := by
+          show (s3.e_offset + BitVec.ofNat 64 (encVarint S).length).toNat = _
+          rw [e3o, ha2]
+        obtain ⟨wok, wbad⟩ := write_loopI32 fuel hf vs ({ s3 with e_p := writeAt s3.e_p s3.e_offset.toNat (encVarint S), e_offset := s3.e_offset + BitVec.ofNat 64 (encVarint S).length } : ESI32) (by rw [e5p, hlen2]; exact hp) (by rw [e5p, e5o, hlen2]; exact h2)
+        rw [e5p, e5o, hlen2] at wok wbad
+        have hoffl : off.toNat + T.length + (encVarint S).length = off.toNat + (T ++ encVarint S).length := by
+          simp only [List.length_append]; omega
+        have hfe : ∀ st : ESI32, Go.forEach (fun s : ESI32 => s.vs) (fun s x => { s with v := x }) (writeBodyI32 fuel) st = Go.forEachGo bindVI32 (writeBodyI32 fuel) st.vs st := fun _ => rfl
+        by_cases h3 : off.toNat + T.length + (encVarint S).length + (flatI32 vs).length ≤ p.length
+        · obtain ⟨s6, hl6, e6p, e6o⟩ := wok h3
+          have hst : ({ buf := p, off := off.toNat } : Enc).store (T ++ encVarint S ++ flatI32 vs) =
+              .ok { buf := writeAt p off.toNat (T ++ encVarint S ++ flatI32 vs), off := off.toNat + (T ++ encVarint S ++ flatI32 vs).length } :=
+            store_ok p _ _ (by simp only [List.length_append]; omega)
+          simp only [hst, EncOut.ofRes]
+          unfold bindVI32 writeBodyI32 at hl6
+          rw [e3v] at hl6
+          simp only [Go.forEach, e3v]
+          refine ⟨s6, ?_, ?_, ?_⟩
+          · first | erw [hl6] | simp only [hl6] | (rw [show _ = _ from hl6])
+          · rw [e6p, hoffl, writeAt_writeAt p off.toNat _ _ (by simp only [List.length_append]; omega)]
+          · rw [e6o]; simp only [List.length_append]; omega
+        · have hst : ({ buf := p, off := off.toNat } : Enc).store (T ++ encVarint S ++ flatI32 vs) = .panic :=
+            store_panic p _ _ (by simp only [List.length_append]; omega)
+          simp only [hst, EncOut.ofRes]
+          have hb := wbad h3
+          unfold bindVI32 writeBodyI32 at hb
+          rw [e3v] at hb
+          simp only [Go.forEach, e3v]
+          first | erw [hb] | simp only [hb]
+      · have hst : ({ buf := p, off := off.toNat } : Enc).store (T ++ encVarint S ++ flatI32 vs) = .panic :=
+          store_panic p _ _ (by simp only [List.length_append]; omega)
+        simp only [hst, EncOut.ofRes]
+        rw [s4bad (by rw [e3p, e3o, hlen1, ha1]; exact h2)]
+    · have hst : ({ buf := p, off := off.toNat } : Enc).store (T ++ encVarint S ++ flatI32 vs) = .panic :=
+        store_panic p _ _ (by simp only [List.length_append]; omega)
+      simp only [hst, EncOut.ofRes, s1bad h1]
+
+/-! ## `EncodePackedInt64` -/
+
+abbrev ESI64 := Encoder_EncodePackedInt64.St
+
+def sizesBodyI64 : ESI64 → Go.Out ESI64 Unit := (fun s => .next { s with sz := (s.sz + (SizeOfVarint s.v)) })
+def bindVI64 : ESI64 → BitVec 64 → ESI64 := (fun s x => { s with v := x })
+
+theorem sizeOfVarint_le10I64 (x : BitVec 64) : (SizeOfVarint x).toNat = sizeOfVarint x.toNat ∧ sizeOfVarint x.toNat ≤ 10 := by
+  refine ⟨sizeOfVarint_src x, ?_⟩
+  rw [sizeOfVarint_eq_length]
+  exact encVarint_length_le_10 (by rw [two64_eq]; exact x.isLt)
+
+/-- the first loop: `sz` ends up as the sum of the elements' varint sizes -/
+theorem sizes_loopI64 : ∀ (vs : List (BitVec 64)) (s : ESI64), s.sz.toNat + 10 * vs.length < 2 ^ 63 →
+    ∃ s', Go.forEachGo bindVI64 sizesBodyI64 vs s = .next s' ∧ s'.e_p = s.e_p ∧ s'.e_offset = s.e_offset ∧ s'.vs = s.vs ∧ s'.tag = s.tag ∧
+      s'.sz.toNat = s.sz.toNat + sumSizes sizeOfVarint (vs.map (·.toNat)) := by
+  intro vs
+  induction vs with
+  | nil => intro s _; exact ⟨s, rfl, rfl, rfl, rfl, rfl, by simp [sumSizes]⟩
+  | cons x r ih =>
+    intro s hb
+    obtain ⟨hx, hx10⟩ := sizeOfVarint_le10I64 x
+    simp only [List.length_cons] at hb
+    have hadd : (s.sz + SizeOfVarint x).toNat = s.sz.toNat + sizeOfVarint x.toNat := by
+      rw [BitVec.toNat_add, hx, Nat.mod_eq_of_lt (by omega)]
+    obtain ⟨s', h1, h2, h3, h4, h5, h6⟩ := ih { s with v := x, sz := s.sz + SizeOfVarint x } (by simp only; rw [hadd]; omega)
+    refine ⟨s', ?_, h2, h3, h4, h5, ?_⟩
+    · simp only [Go.forEachGo, bindVI64, sizesBodyI64]; exact h1
+    · rw [h6]; simp only [hadd, List.map_cons, sumSizes, List.sum_cons]; omega
+
+def writeBodyI64 (fuel : Nat) : ESI64 → Go.Out ESI64 Unit :=
+  (fun s => if ((s.e_offset).toNat ≤ s.e_p.length) then match (EncodeVarint fuel (s.e_p.drop (s.e_offset).toNat) s.v) with | .ret r c => .next { s with e_p := s.e_p.take (s.e_offset).toNat ++ c.dest, e_offset := (s.e_offset + r) } | .next _ => .panic | .panic => .panic | .diverge => .diverge else .panic)
+
+def flatI64 (vs : List (BitVec 64)) : Bytes := ((vs.map (·.toNat)).map encVarint).flatten
+
+/-- the second loop: the elements' varints one after the other at the cursor, or a panic when they do not all fit -/
+theorem write_loopI64 (fuel : Nat) (hf : 10 ≤ fuel) : ∀ (vs : List (BitVec 64)) (s : ESI64), s.e_p.length < 2 ^ 62 → s.e_offset.toNat ≤ s.e_p.length →
+    (s.e_offset.toNat + (flatI64 vs).length ≤ s.e_p.length →
+      ∃ s', Go.forEachGo bindVI64 (writeBodyI64 fuel) vs s = .next s' ∧ s'.e_p = writeAt s.e_p s.e_offset.toNat (flatI64 vs) ∧
+        s'.e_offset.toNat = s.e_offset.toNat + (flatI64 vs).length) ∧
+    (¬ s.e_offset.toNat + (flatI64 vs).length ≤ s.e_p.length → Go.forEachGo bindVI64 (writeBodyI64 fuel) vs s = .panic) := by
+  intro vs
+  induction vs with
+  | nil =>
+    intro s hp ho
+    refine ⟨fun _ => ⟨s, rfl, by simp [flatI64, writeAt], by simp [flatI64]⟩, fun h => by simp [flatI64] at h; omega⟩
+  | cons x r ih =>
+    intro s hp ho
+    have hflat : flatI64 (x :: r) = encVarint x.toNat ++ flatI64 r := by simp [flatI64]
+    obtain ⟨sok, sbad⟩ := stage (EncodeVarint fuel (s.e_p.drop s.e_offset.toNat) x) (·.dest) s.e_p s.e_offset (encVarint x.toNat) (by omega) ho
+      (fun h => EncodeVarint_ok fuel _ x hf h) (fun h => EncodeVarint_short fuel _ x hf h)
+    by_cases h1 : s.e_offset.toNat + (encVarint x.toNat).length ≤ s.e_p.length
+    · obtain ⟨c, hc, hw, ha⟩ := sok h1
+      have hstep : writeBodyI64 fuel (bindVI64 s x) = .next { (bindVI64 s x) with e_p := writeAt s.e_p s.e_offset.toNat (encVarint x.toNat), e_offset := s.e_offset + BitVec.ofNat 64 (encVarint x.toNat).length } := by
+        simp only [writeBodyI64, bindVI64, ho, if_true, hc, hw]
+      have hlen1 : (writeAt s.e_p s.e_offset.toNat (encVarint x.toNat)).length = s.e_p.length := writeAt_length h1
+      obtain ⟨iok, ibad⟩ := ih { (bindVI64 s x) with e_p := writeAt s.e_p s.e_offset.toNat (encVarint x.toNat), e_offset := s.e_offset + BitVec.ofNat 64 (encVarint x.toNat).length }
+        (by simp only; rw [hlen1]; exact hp) (by simp only; rw [hlen1, ha]; exact h1)
+      simp only [hlen1, ha] at iok ibad
+      constructor
+      · intro hfit
+        rw [hflat, List.length_append] at hfit
+        obtain ⟨s', e1, e2, e3⟩ := iok (by omega)
+        refine ⟨s', ?_, ?_, ?_⟩
+        · simp only [Go.forEachGo, hstep]; exact e1
+        · rw [e2, hflat, writeAt_writeAt _ _ _ _ (by omega)]
+        · rw [e3, hflat, List.length_append]; omega
+      · intro hno
+        rw [hflat, List.length_append] at hno
+        simp only [Go.forEachGo, hstep]
+        exact ibad (by omega)
+    · constructor
+      · intro hfit; rw [hflat, List.length_append] at hfit; omega
+      · intro _
+        have hp' := sbad h1
+        simp only [Go.forEachGo, writeBodyI64, bindVI64, ho, if_true, hp']
+
+theorem seq_nextI64 {σ ρ : Type} (a b : σ → Go.Out σ ρ) (s s' : σ) (h : a s = .next s') : Go.seq a b s = b s' := by
+  simp [Go.seq, h]
+theorem seq_panicI64 {σ ρ : Type} (a b : σ → Go.Out σ ρ) (s : σ) (h : a s = .panic) : Go.seq a b s = .panic := by
+  simp [Go.seq, h]
+
+/-- **`(*Encoder).EncodePackedUInt64` of the source refines `Enc.step (.packedVarint tag vs)`** -/
+theorem EncodePackedInt64_refines (fuel : Nat) (hf : 10 ≤ fuel) (p : Bytes) (off tag : BitVec 64) (vs : List (BitVec 64))
+    (hp : p.length < 2 ^ 62) (hoff : off.toNat ≤ p.length) (hvs : vs.length < 2 ^ 59) :
+    match ({ buf := p, off := off.toNat } : Enc).step (.packedVarint tag.toNat (vs.map (·.toNat))) with
+    | .ok e' => ∃ s, Encoder_EncodePackedInt64 fuel p off tag vs = .ret () s ∧ s.e_p = e'.buf ∧ s.e_offset.toNat = e'.off
+    | .panic => Encoder_EncodePackedInt64 fuel p off tag vs = .panic
+    | .err _ => False := by
+  have hp63 : p.length < 2 ^ 63 := by omega
+  unfold Encoder_EncodePackedInt64 Encoder_EncodePackedInt64.body
+  cases hvs0 : vs with
+  | nil => simp [Go.seq, Enc.step]
+  | cons x0 r0 =>
+    rw [← hvs0]
+    have hne : (vs.map (·.toNat)).isEmpty = false := by rw [hvs0]; rfl
+    have hlen0 : ((BitVec.ofNat 64 vs.length) == 0#64) = false := by
+      have : 0 < vs.length := by rw [hvs0]; simp
+      have h2 : (BitVec.ofNat 64 vs.length).toNat = vs.length := by simp; omega
+      have : BitVec.ofNat 64 vs.length ≠ 0#64 := fun h => by rw [h] at h2; simp at h2; omega
+      simp [this]
+    simp only [Enc.step, hne, Bool.false_eq_true, if_false, EncOp.wire]
+    -- abbreviations
+    generalize hT : encTag tag.toNat wtLen = T
+    generalize hS : sumSizes sizeOfVarint (vs.map (·.toNat)) = S
+    have hW : ((vs.map (·.toNat)).map encVarint).flatten = flatI64 vs := rfl
+    rw [hW]
+    have hwt : wtLen = (2#64).toNat := rfl
+    -- first statement (empty test) and the key
+    obtain ⟨s1ok, s1bad⟩ := stage (EncodeTag fuel (p.drop off.toNat) tag 2#64) (·.dest) p off T hp63 hoff
+      (fun h => by rw [← hT, hwt] at h ⊢; exact EncodeTag_ok fuel _ tag 2#64 hf h)
+      (fun h => by rw [← hT, hwt] at h; exact EncodeTag_short fuel _ tag 2#64 hf h)
+    simp only [Go.seq, Go.skip, hlen0, Bool.false_eq_true, if_false, hoff, if_true]
+    by_cases h1 : off.toNat + T.length ≤ p.length
+    · obtain ⟨c1, hc1, hw1, ha1⟩ := s1ok h1
+      have hlen1 : (writeAt p off.toNat T).length = p.length := writeAt_length h1
+      simp only [hc1, hw1]
+      -- the sizes loop
+      obtain ⟨s3, hl3, e3p, e3o, e3v, e3t, e3s⟩ := sizes_loopI64 vs
+        { e_p := writeAt p off.toNat T, e_offset := off + BitVec.ofNat 64 T.length, tag := tag, vs := vs, sz := 0#64 } (by simp; omega)
+      have hf3 : Go.forEach (fun s : ESI64 => s.vs) (fun s x => { s with v := x }) (fun s => Go.Out.next { s with sz := (s.sz + (SizeOfVarint s.v)) })
+          { e_p := writeAt p off.toNat T, e_offset := off + BitVec.ofNat 64 T.length, tag := tag, vs := vs, sz := 0#64 } = .next s3 := hl3
+      simp only [hf3]
+      simp only at e3p e3o e3v e3t e3s
+      have hsz : s3.sz.toNat = S := by rw [e3s, hS]; simp
+      -- the length prefix
+      obtain ⟨s4ok, s4bad⟩ := stage (EncodeVarint fuel (s3.e_p.drop s3.e_offset.toNat) s3.sz) (·.dest) s3.e_p s3.e_offset (encVarint S)
+        (by rw [e3p, hlen1]; exact hp63) (by rw [e3p, e3o, hlen1, ha1]; exact h1)
+        (fun h => by rw [← hsz] at h ⊢; exact EncodeVarint_ok fuel _ s3.sz hf h) (fun h => by rw [← hsz] at h; exact EncodeVarint_short fuel _ s3.sz hf h)
+      have hle3 : s3.e_offset.toNat ≤ s3.e_p.length := by rw [e3p, e3o, hlen1, ha1]; exact h1
+      simp only [hle3, if_true]
+      by_cases h2 : off.toNat + T.length + (encVarint S).length ≤ p.length
+      · obtain ⟨c2, hc2, hw2, ha2⟩ := s4ok (by rw [e3p, e3o, hlen1, ha1]; exact h2)
+        simp only [hc2, hw2]
+        simp only [e3p, e3o, ha1] at hw2 ha2
+        have hq2 : writeAt (writeAt p off.toNat T) (off.toNat + T.length) (encVarint S) = writeAt p off.toNat (T ++ encVarint S) :=
+          writeAt_writeAt p off.toNat _ _ h2
+        have hlen2 : (writeAt p off.toNat (T ++ encVarint S)).length = p.length := writeAt_length (by simp only [List.length_append]; omega)
+        -- the elements
+        have e5p : ({ s3 with e_p := writeAt s3.e_p s3.e_offset.toNat (encVarint S), e_offset := s3.e_offset + BitVec.ofNat 64 (encVarint S).length } : ESI64).e_p = writeAt p off.toNat (T ++ encVarint S) := by
+          show writeAt s3.e_p s3.e_offset.toNat (encVarint S) = _
+          rw [e3p, e3o, ha1, hq2]
+        have e5o : ({ s3 with e_p := writeAt s3.e_p s3.e_offset.toNat (encVarint S), e_offset := s3.e_offset + BitVec.ofNat 64 (encVarint S).length } : ESI64).e_offset.toNat = off.toNat + T.length + (encVarint S).length := by
+          show (s3.e_offset + BitVec.ofNat 64 (encVarint S).length).toNat = _
+          rw [e3o, ha2]
+        obtain ⟨wok, wbad⟩ := write_loopI64 fuel hf vs ({ s3 with e_p := writeAt s3.e_p s3.e_offset.toNat (encVarint S), e_offset := s3.e_offset + BitVec.ofNat 64 (encVarint S).length } : ESI64) (by rw [e5p, hlen2]; exact hp) (by rw [e5p, e5o, hlen2]; exact h2)
+        rw [e5p, e5o, hlen2] at wok wbad
+        have hoffl : off.toNat + T.length + (encVarint S).length = off.toNat + (T ++ encVarint S).length := by
+          simp only [List.length_append]; omega
+        have hfe : ∀ st : ESI64, Go.forEach (fun s : ESI64 => s.vs) (fun s x => { s with v := x }) (writeBodyI64 fuel) st = Go.forEachGo bindVI64 (writeBodyI64 fuel) st.vs st := fun _ => rfl
+        by_cases h3 : off.toNat + T.length + (encVarint S).length + (flatI64 vs).length ≤ p.length
+        · obtain ⟨s6, hl6, e6p, e6o⟩ := wok h3
+          have hst : ({ buf := p, off := off.toNat } : Enc).store (T ++ encVarint S ++ flatI64 vs) =
+              .ok { buf := writeAt p off.toNat (T ++ encVarint S ++ flatI64 vs), off := off.toNat + (T ++ encVarint S ++ flatI64 vs).length } :=
+            store_ok p _ _ (by simp only [List.length_append]; omega)
+          simp only [hst, EncOut.ofRes]
+          unfold bindVI64 writeBodyI64 at hl6
+          rw [e3v] at hl6
+          simp only [Go.forEach, e3v]
+          refine ⟨s6, ?_, ?_, ?_⟩
+          · first | erw [hl6] | simp only [hl6] | (rw [show _ = _ from hl6])
+          · rw [e6p, hoffl, writeAt_writeAt p off.toNat _ _ (by simp only [List.length_append]; omega)]
+          · rw [e6o]; simp only [List.length_append]; omega
+        · have hst : ({ buf := p, off := off.toNat } : Enc).store (T ++ encVarint S ++ flatI64 vs) = .panic :=
+            store_panic p _ _ (by simp only [List.length_append]; omega)
+          simp only [hst, EncOut.ofRes]
+          have hb := wbad h3
+          unfold bindVI64 writeBodyI64 at hb
+          rw [e3v] at hb
+          simp only [Go.forEach, e3v]
+          first | erw [hb] | simp only [hb]
+      · have hst : ({ buf := p, off := off.toNat } : Enc).store (T ++ encVarint S ++ flatI64 vs) = .panic :=
+          store_panic p _ _ (by simp only [List.length_append]; omega)
+        simp only [hst, EncOut.ofRes]
+        rw [s4bad (by rw [e3p, e3o, hlen1, ha1]; exact h2)]
+    · have hst : ({ buf := p, off := off.toNat } : Enc).store (T ++ encVarint S ++ flatI64 vs) = .panic :=
+        store_panic p _ _ (by simp only [List.length_append]; omega)
+      simp only [hst, EncOut.ofRes, s1bad h1]
+
+/-! ## `EncodePackedUInt32` -/
+
+abbrev ESU32 := Encoder_EncodePackedUInt32.St
+
+def sizesBodyU32 : ESU32 → Go.Out ESU32 Unit := (fun s => .next { s with sz := (s.sz + (SizeOfVarint (BitVec.setWidth 64 s.v))) })
+def bindVU32 : ESU32 → BitVec 32 → ESU32 := (fun s x => { s with v := x })
+
+theorem sizeOfVarint_le10U32 (x : BitVec 64) : (SizeOfVarint x).toNat = sizeOfVarint x.toNat ∧ sizeOfVarint x.toNat ≤ 10 := by
+  refine ⟨sizeOfVarint_src x, ?_⟩
+  rw [sizeOfVarint_eq_length]
+  exact encVarint_length_le_10 (by rw [two64_eq]; exact x.isLt)
+
+/-- the first loop: `sz` ends up as the sum of the elements' varint sizes -/
+theorem sizes_loopU32 : ∀ (vs : List (BitVec 32)) (s : ESU32), s.sz.toNat + 10 * vs.length < 2 ^ 63 →
+    ∃ s', Go.forEachGo bindVU32 sizesBodyU32 vs s = .next s' ∧ s'.e_p = s.e_p ∧ s'.e_offset = s.e_offset ∧ s'.vs = s.vs ∧ s'.tag = s.tag ∧
+      s'.sz.toNat = s.sz.toNat + sumSizes sizeOfVarint (vs.map (fun v => (BitVec.setWidth 64 v).toNat)) := by
+  intro vs
+  induction vs with
+  | nil => intro s _; exact ⟨s, rfl, rfl, rfl, rfl, rfl, by simp [sumSizes]⟩
+  | cons x r ih =>
+    intro s hb
+    obtain ⟨hx, hx10⟩ := sizeOfVarint_le10U32 (BitVec.setWidth 64 x)
+    simp only [List.length_cons] at hb
+    have hadd : (s.sz + SizeOfVarint (BitVec.setWidth 64 x)).toNat = s.sz.toNat + sizeOfVarint (BitVec.setWidth 64 x).toNat := by
+      rw [BitVec.toNat_add, hx, Nat.mod_eq_of_lt (by omega)]
+    obtain ⟨s', h1, h2, h3, h4, h5, h6⟩ := ih { s with v := x, sz := s.sz + SizeOfVarint (BitVec.setWidth 64 x) } (by simp only; rw [hadd]; omega)
+    refine ⟨s', ?_, h2, h3, h4, h5, ?_⟩
+    · simp only [Go.forEachGo, bindVU32, sizesBodyU32]; exact h1
+    · rw [h6]; simp only [hadd, List.map_cons, sumSizes, List.sum_cons]; omega
+
+def writeBodyU32 (fuel : Nat) : ESU32 → Go.Out ESU32 Unit :=
+  (fun s => if ((s.e_offset).toNat ≤ s.e_p.length) then match (EncodeVarint fuel (s.e_p.drop (s.e_offset).toNat) (BitVec.setWidth 64 s.v)) with | .ret r c => .next { s with e_p := s.e_p.take (s.e_offset).toNat ++ c.dest, e_offset := (s.e_offset + r) } | .next _ => .panic | .panic => .panic | .diverge => .diverge else .panic)
+
+def flatU32 (vs : List (BitVec 32)) : Bytes := ((vs.map (fun v => (BitVec.setWidth 64 v).toNat)).map encVarint).flatten
+
+/-- the second loop: the elements' varints one after the other at the cursor, or a panic when they do not all fit -/
+theorem write_loopU32 (fuel : Nat) (hf : 10 ≤ fuel) : ∀ (vs : List (BitVec 32)) (s : ESU32), s.e_p.length < 2 ^ 62 → s.e_offset.toNat ≤ s.e_p.length →
+    (s.e_offset.toNat + (flatU32 vs).length ≤ s.e_p.length →
+      ∃ s', Go.forEachGo bindVU32 (writeBodyU32 fuel) vs s = .next s' ∧ s'.e_p = writeAt s.e_p s.e_offset.toNat (flatU32 vs) ∧
+        s'.e_offset.toNat = s.e_offset.toNat + (flatU32 vs).length) ∧
+    (¬ s.e_offset.toNat + (flatU32 vs).length ≤ s.e_p.length → Go.forEachGo bindVU32 (writeBodyU32 fuel) vs s = .panic) := by
+  intro vs
+  induction vs with
+  | nil =>
+    intro s hp ho
+    refine ⟨fun _ => ⟨s, rfl, by simp [flatU32, writeAt], by simp [flatU32]⟩, fun h => by simp [flatU32] at h; omega⟩
+  | cons x r ih =>
+    intro s hp ho
+    have hflat : flatU32 (x :: r) = encVarint (BitVec.setWidth 64 x).toNat ++ flatU32 r := by simp [flatU32]
+    obtain ⟨sok, sbad⟩ := stage (EncodeVarint fuel (s.e_p.drop s.e_offset.toNat) (BitVec.setWidth 64 x)) (·.dest) s.e_p s.e_offset (encVarint (BitVec.setWidth 64 x).toNat) (by omega) ho
+      (fun h => EncodeVarint_ok fuel _ (BitVec.setWidth 64 x) hf h) (fun h => EncodeVarint_short fuel _ (BitVec.setWidth 64 x) hf h)
+    by_cases h1 : s.e_offset.toNat + (encVarint (BitVec.setWidth 64 x).toNat).length ≤ s.e_p.length
+    · obtain ⟨c, hc, hw, ha⟩ := sok h1
+      have hstep : writeBodyU32 fuel (bindVU32 s x) = .next { (bindVU32 s x) with e_p := writeAt s.e_p s.e_offset.toNat (encVarint (BitVec.setWidth 64 x).toNat), e_offset := s.e_offset + BitVec.ofNat 64 (encVarint (BitVec.setWidth 64 x).toNat).length } := by
+        simp only [writeBodyU32, bindVU32, ho, if_true, hc, hw]
+      have hlen1 : (writeAt s.e_p s.e_offset.toNat (encVarint (BitVec.setWidth 64 x).toNat)).length = s.e_p.length := writeAt_length h1
+      obtain ⟨iok, ibad⟩ := ih { (bindVU32 s x) with e_p := writeAt s.e_p s.e_offset.toNat (encVarint (BitVec.setWidth 64 x).toNat), e_offset := s.e_offset + BitVec.ofNat 64 (encVarint (BitVec.setWidth 64 x).toNat).length }
+        (by simp only; rw [hlen1]; exact hp) (by simp only; rw [hlen1, ha]; exact h1)
+      simp only [hlen1, ha] at iok ibad
+      constructor
+      · intro hfit
+        rw [hflat, List.length_append] at hfit
+        obtain ⟨s', e1, e2, e3⟩ := iok (by omega)
+        refine ⟨s', ?_, ?_, ?_⟩
+        · simp only [Go.forEachGo, hstep]; exact e1
+        · rw [e2, hflat, writeAt_writeAt _ _ _ _ (by omega)]
+        · rw [e3, hflat, List.length_append]; omega
+      · intro hno
+        rw [hflat, List.length_append] at hno
+        simp only [Go.forEachGo, hstep]
+        exact ibad (by omega)
+    · constructor
+      · intro hfit; rw [hflat, List.length_append] at hfit; omega
+      · intro _
+        have hp' := sbad h1
+        simp only [Go.forEachGo, writeBodyU32, bindVU32, ho, if_true, hp']
+
+theorem seq_nextU32 {σ ρ : Type} (a b : σ → Go.Out σ ρ) (s s' : σ) (h : a s = .next s') : Go.seq a b s = b s' := by
+  simp [Go.seq, h]
+theorem seq_panicU32 {σ ρ : Type} (a b : σ → Go.Out σ ρ) (s : σ) (h : a s = .panic) : Go.seq a b s = .panic := by
+  simp [Go.seq, h]
+
+/-- **`(*Encoder).EncodePackedUInt64` of the source refines `Enc.step (.packedVarint tag vs)`** -/
+theorem EncodePackedUInt32_refines (fuel : Nat) (hf : 10 ≤ fuel) (p : Bytes) (off tag : BitVec 64) (vs : List (BitVec 32))
+    (hp : p.length < 2 ^ 62) (hoff : off.toNat ≤ p.length) (hvs : vs.length < 2 ^ 59) :
+    match ({ buf := p, off := off.toNat } : Enc).step (.packedVarint tag.toNat (vs.map (fun v => (BitVec.setWidth 64 v).toNat))) with
+    | .ok e' => ∃ s, Encoder_EncodePackedUInt32 fuel p off tag vs = .ret () s ∧ s.e_p = e'.buf ∧ s.e_offset.toNat = e'.off
+    | .panic => Encoder_EncodePackedUInt32 fuel p off tag vs = .panic
+    | .err _ => False := by
+  have hp63 : p.length < 2 ^ 63 := by omega
+  unfold Encoder_EncodePackedUInt32 Encoder_EncodePackedUInt32.body
+  cases hvs0 : vs with
+  | nil => simp [Go.seq, Enc.step]
+  | cons x0 r0 =>
+    rw [← hvs0]
+    have hne : (vs.map (fun v => (BitVec.setWidth 64 v).toNat)).isEmpty = false := by rw [hvs0]; rfl
+    have hlen0 : ((BitVec.ofNat 64 vs.length) == 0#64) = false := by
+      have : 0 < vs.length := by rw [hvs0]; simp
+      have h2 : (BitVec.ofNat 64 vs.length).toNat = vs.length := by simp; omega
+      have : BitVec.ofNat 64 vs.length ≠ 0#64 := fun h => by rw [h] at h2; simp at h2; omega
+      simp [this]
+    simp only [Enc.step, hne, Bool.false_eq_true, if_false, EncOp.wire]
+    -- abbreviations
+    generalize hT : encTag tag.toNat wtLen = T
+    generalize hS : sumSizes sizeOfVarint (vs.map (fun v => (BitVec.setWidth 64 v).toNat)) = S
+    have hW : ((vs.map (fun v => (BitVec.setWidth 64 v).toNat)).map encVarint).flatten = flatU32 vs := rfl
+    rw [hW]
+    have hwt : wtLen = (2#64).toNat := rfl
+    -- first statement (empty test) and the key
+    obtain ⟨s1ok, s1bad⟩ := stage (EncodeTag fuel (p.drop off.toNat) tag 2#64) (·.dest) p off T hp63 hoff
+      (fun h => by rw [← hT, hwt] at h ⊢; exact EncodeTag_ok fuel _ tag 2#64 hf h)
+      (fun h => by rw [← hT, hwt] at h; exact EncodeTag_short fuel _ tag 2#64 hf h)
+    simp only [Go.seq, Go.skip, hlen0, Bool.false_eq_true, if_false, hoff, if_true]
+    by_cases h1 : off.toNat + T.length ≤ p.length
+    · obtain ⟨c1, hc1, hw1, ha1⟩ := s1ok h1
+      have hlen1 : (writeAt p off.toNat T).length = p.length := writeAt_length h1
+      simp only [hc1, hw1]
+      -- the sizes loop
+      obtain ⟨s3, hl3, e3p, e3o, e3v, e3t, e3s⟩ := sizes_loopU32 vs
+        { e_p := writeAt p off.toNat T, e_offset := off + BitVec.ofNat 64 T.length, tag := tag, vs := vs, sz := 0#64 } (by simp; omega)
+      have hf3 : Go.forEach (fun s : ESU32 => s.vs) (fun s x => { s with v := x }) (fun s => Go.Out.next { s with sz := (s.sz + (SizeOfVarint (BitVec.setWidth 64 s.v))) })
+          { e_p := writeAt p off.toNat T, e_offset := off + BitVec.ofNat 64 T.length, tag := tag, vs := vs, sz := 0#64 } = .next s3 := hl3
+      simp only [hf3]
+      simp only at e3p e3o e3v e3t e3s
+      have hsz : s3.sz.toNat = S := by rw [e3s, hS]; simp
+      -- the length prefix
+      obtain ⟨s4ok, s4bad⟩ := stage (EncodeVarint fuel (s3.e_p.drop s3.e_offset.toNat) s3.sz) (·.dest) s3.e_p s3.e_offset (encVarint S)
+        (by rw [e3p, hlen1]; exact hp63) (by rw [e3p, e3o, hlen1, ha1]; exact h1)
+        (fun h => by rw [← hsz] at h ⊢; exact EncodeVarint_ok fuel _ s3.sz hf h) (fun h => by rw [← hsz] at h; exact EncodeVarint_short fuel _ s3.sz hf h)
+      have hle3 : s3.e_offset.toNat ≤ s3.e_p.length := by rw [e3p, e3o, hlen1, ha1]; exact h1
+      simp only [hle3, if_true]
+      by_cases h2 : off.toNat + T.length + (encVarint S).length ≤ p.length
+      · obtain ⟨c2, hc2, hw2, ha2⟩ := s4ok (by rw [e3p, e3o, hlen1, ha1]; exact h2)
+        simp only [hc2, hw2]
+        simp only [e3p, e3o, ha1] at hw2 ha2
+        have hq2 : writeAt (writeAt p off.toNat T) (off.toNat + T.length) (encVarint S) = writeAt p off.toNat (T ++ encVarint S) :=
+          writeAt_writeAt p off.toNat _ _ h2
+        have hlen2 : (writeAt p off.toNat (T ++ encVarint S)).length = p.length := writeAt_length (by simp only [List.length_append]; omega)
+        -- the elements
+        have e5p : ({ s3 with e_p := writeAt s3.e_p s3.e_offset.toNat (encVarint S), e_offset := s3.e_offset + BitVec.ofNat 64 (encVarint S).length } : ESU32).e_p = writeAt p off.toNat (T ++ encVarint S) := by
+          show writeAt s3.e_p s3.e_offset.toNat (encVarint S) = _
+          rw [e3p, e3o, ha1, hq2]
+        have e5o : ({ s3 with e_p := writeAt s3.e_p s3.e_offset.toNat (encVarint S), e_offset := s3.e_offset + BitVec.ofNat 64 (encVarint S).length } : ESU32).e_offset.toNat = off.toNat + T.length + (encVarint S).length := by
+          show (s3.e_offset + BitVec.ofNat 64 (encVarint S).length).toNat = _
+          rw [e3o, ha2]
+        obtain ⟨wok, wbad⟩ := write_loopU32 fuel hf vs ({ s3 with e_p := writeAt s3.e_p s3.e_offset.toNat (encVarint S), e_offset := s3.e_offset + BitVec.ofNat 64 (encVarint S).length } : ESU32) (by rw [e5p, hlen2]; exact hp) (by rw [e5p, e5o, hlen2]; exact h2)
+        rw [e5p, e5o, hlen2] at wok wbad
+        have hoffl : off.toNat + T.length + (encVarint S).length = off.toNat + (T ++ encVarint S).length := by
+          simp only [List.length_append]; omega
+        have hfe : ∀ st : ESU32, Go.forEach (fun s : ESU32 => s.vs) (fun s x => { s with v := x }) (writeBodyU32 fuel) st = Go.forEachGo bindVU32 (writeBodyU32 fuel) st.vs st := fun _ => rfl
+        by_cases h3 : off.toNat + T.length + (encVarint S).length + (flatU32 vs).length ≤ p.length
+        · obtain ⟨s6, hl6, e6p, e6o⟩ := wok h3
+          have hst : ({ buf := p, off := off.toNat } : Enc).store (T ++ encVarint S ++ flatU32 vs) =
+              .ok { buf := writeAt p off.toNat (T ++ encVarint S ++ flatU32 vs), off := off.toNat + (T ++ encVarint S ++ flatU32 vs).length } :=
+            store_ok p _ _ (by simp only [List.length_append]; omega)
+          simp only [hst, EncOut.ofRes]
+          unfold bindVU32 writeBodyU32 at hl6
+          rw [e3v] at hl6
+          simp only [Go.forEach, e3v]
+          refine ⟨s6, ?_, ?_, ?_⟩
+          · first | erw [hl6] | simp only [hl6] | (rw [show _ = _ from hl6])
+          · rw [e6p, hoffl, writeAt_writeAt p off.toNat _ _ (by simp only [List.length_append]; omega)]
+          · rw [e6o]; simp only [List.length_append]; omega
+        · have hst : ({ buf := p, off := off.toNat } : Enc).store (T ++ encVarint S ++ flatU32 vs) = .panic :=
+            store_panic p _ _ (by simp only [List.length_append]; omega)
+          simp only [hst, EncOut.ofRes]
+          have hb := wbad h3
+          unfold bindVU32 writeBodyU32 at hb
+          rw [e3v] at hb
+          simp only [Go.forEach, e3v]
+          first | erw [hb] | simp only [hb]
+      · have hst : ({ buf := p, off := off.toNat } : Enc).store (T ++ encVarint S ++ flatU32 vs) = .panic :=
+          store_panic p _ _ (by simp only [List.length_append]; omega)
+        simp only [hst, EncOut.ofRes]
+        rw [s4bad (by rw [e3p, e3o, hlen1, ha1]; exact h2)]
+    · have hst : ({ buf := p, off := off.toNat } : Enc).store (T ++ encVarint S ++ flatU32 vs) = .panic :=
+        store_panic p _ _ (by simp only [List.length_append]; omega)
+      simp only [hst, EncOut.ofRes, s1bad h1]
+
 end Csproto.Bridge.PackedEncFuncs
